@@ -84,6 +84,14 @@ impl<'a> Gen<'a> {
             "opt" => json == "null" || self.might_accept(&s["s"], json),
             "seq" => json.starts_with('['),
             "untagged" => s["alts"].as_array().unwrap().iter().any(|a| self.might_accept(&a["s"], json)),
+            "refine" => self.might_accept(&s["s"], json),
+            "struct" => {
+                // an object that lacks a required key is rejected (`missing field`)
+                is_obj && match serde_json::from_str::<Value>(json) {
+                    Ok(Value::Object(m)) => s["fields"].as_array().unwrap().iter().all(|f| f["kind"] != "req" || m.contains_key(f["name"].as_str().unwrap())),
+                    _ => true,
+                }
+            }
             _ => is_obj,
         }
     }
@@ -208,6 +216,25 @@ impl<'a> Gen<'a> {
                     full.push(format!("{}:{}", jstr(&k), j));
                 }
                 (format!("{{{}}}", parts.join(",")), format!("{{{}}}", full.join(",")))
+            }
+            "refine" => {
+                // read as the inner schema, then validated: only values that pass the validation are values of the type
+                // (the rejected combination is probed with a hand-built value in `amb_probes`)
+                loop {
+                    let mut t = vec![];
+                    let j = self.val(&s["s"], &mut t, depth);
+                    let ok = match s["guard"].as_str().unwrap() {
+                        "reference_time" => {
+                            let v: Value = serde_json::from_str(&j.0).unwrap();
+                            !(v["clock_type"] == "monotaonic" && v["epoch"] != "Unknow")
+                        }
+                        other => panic!("guard {other}"),
+                    };
+                    if ok {
+                        toks.extend(t);
+                        return j;
+                    }
+                }
             }
             "unitEnum" => {
                 let names = s["names"].as_array().unwrap();
@@ -355,6 +382,13 @@ fn amb_probes() -> Vec<(&'static str, String, String, bool)> {
     v.push(("TimeClockType", format!("v1 s{}", hexs("system")), s, rt));
     let (s, rt) = one(qevent::TimeEpoch::RFC3339DateTime(String::from("Unknow").into()));
     v.push(("TimeEpoch", format!("v1 s{}", hexs("Unknow")), s, rt));
+    let (s, rt) = one(qevent::legacy::quic::StreamDataLocation::Other("user".to_owned()));
+    v.push(("legacy::quic::StreamDataLocation", format!("v1 s{}", hexs("user")), s, rt));
+    // ReferenceTime: the builder accepts clock_type = monotonic with the default epoch, `try_from` validation rejects it on read
+    let mut b = qevent::ReferenceTime::builder();
+    b.clock_type(qevent::TimeClockType::Monotaonic);
+    let (s, rt) = one(b.build());
+    v.push(("ReferenceTime", format!("r3,0 v0 v1 n v1 s{} n", hexs("1970-01-01T00:00:00.000Z")), s, rt));
     v
 }
 
@@ -364,7 +398,9 @@ pub fn run_amb(o: &Opts) {
         sink.case(&i.to_string());
         sink.line(&format!("ser {ty} {toks}"), &format!("{} rt={}", hexs(&s), rt as u8));
         sink.nontrivial();
-        if !rt {
+        if !rt && ty == "ReferenceTime" {
+            sink.monitor_fail("roundtrip:reference-time-validation", &format!("ReferenceTime built by its own builder (clock_type monotonic, default epoch) serialises to {s}, which its own Deserialize (try_from validation) rejects"));
+        } else if !rt {
             sink.monitor_fail(&format!("roundtrip:untagged-ambiguous:{ty}"), &format!("{ty}: the hand-built value serialises to {s}, which parses back to a different value (an earlier untagged alternative accepts it)"));
         }
     }
